@@ -257,11 +257,14 @@ def sub_plots(case):
         plot.draw_coordinate_axes(ax, eo, mode, 0.1)
         plot.draw_correspondence_edges(ax, eo, ro, mode)
         fig2, axarr = plt.subplots(3)
-        plot.traj_xyz(axarr, ro)
-        plot.traj_rpy(axarr, eo)
+        t_start = float(ro.timestamps[0]) if case["misc"]["flag"] else float(ro.timestamps[0]) - 7.5
+        plot.traj_xyz(axarr, ro, start_timestamp=t_start)
+        plot.traj_rpy(axarr, eo, start_timestamp=t_start)
+        plot.traj_xyz(axarr, eo, start_timestamp=t_start)
         fig3 = plt.figure()
         if est.n >= 2:
-            plot.speeds(fig3.gca(), eo)
+            plot.speeds(fig3.gca(), eo, start_timestamp=t_start)
+            plot.speeds(fig3.gca(), ro, start_timestamp=t_start)
         plot.error_array(fig3.gca(), err, x_array=np.arange(est.n, dtype=float), statistics={"mean": float(err.mean())})
         fig4 = plt.figure()
         plot.trajectories(fig4, {"a": ro, "b": eo}, mode)
@@ -433,11 +436,30 @@ def sub_ctor_alias(case):
     mats = [p.copy() for p in real.poses]
     keep = [m.copy() for m in mats]
     obj = PoseTrajectory3D(poses_se3=mats, timestamps=real.T.copy())
+    # the same with positions / quaternions / stamps given as float64 arrays the caller keeps
+    Pc = np.array(real.P, dtype=np.float64)
+    Qc = np.array([rm.R_to_quat(R) for R in real.Rs()], dtype=np.float64)
+    Tc = np.array(real.T, dtype=np.float64)
+    keep_pq = (Pc.copy(), Qc.copy(), Tc.copy())
+    obj2 = PoseTrajectory3D(Pc, Qc, Tc)
+    # and a second trajectory built from another trajectory's views
+    src = real.build(case["traj"]["pre"], timed=True)
+    src_snap = snapshot.snapshot(src)
+    src_view = _full_view(copy.deepcopy(src))
+    obj3 = PoseTrajectory3D(src.positions_xyz, src.orientations_quat_wxyz, src.timestamps)
     for i, op in enumerate(case["ops_derived"]):
         _mutate(obj, op, case["seed"] + i)
         if len(mats) != len(keep) or not all(np.array_equal(a, b) for a, b in zip(mats, keep)):
             raise Mismatch("%s on a trajectory changed the list of pose matrices it was constructed from" % op["op"],
                            observed="source_changed", derive="constructor", mutator=op["op"])
+        _mutate(obj2, op, case["seed"] + i)
+        if not (np.array_equal(Pc, keep_pq[0]) and np.array_equal(Qc, keep_pq[1]) and np.array_equal(Tc, keep_pq[2])):
+            raise Mismatch("%s on a trajectory changed the position/quaternion/timestamp arrays it was constructed from" % op["op"],
+                           observed="source_changed", derive="constructor_arrays", mutator=op["op"])
+        _mutate(obj3, op, case["seed"] + i)
+        if snapshot.diff(src_snap, src) or _same_view(src_view, _full_view(copy.deepcopy(src))):
+            raise Mismatch("%s on a trajectory built from another trajectory's views changed that trajectory" % op["op"],
+                           observed="source_changed", derive="constructor_views", mutator=op["op"])
     return "ctor"
 
 
